@@ -47,6 +47,7 @@ type Contract struct {
 	Modifies []*Clause
 	Loops    map[int]*LoopSpec
 	CallAsserts map[string][]*Clause // "callee#n" -> asserts checked before that call
+	Stable   []string   // channel fields nobody else closes while this function runs (rely, justified at the contract)
 	RecvInv  []*ChanInv // content invariants of channel parameters (recvinv p(v): expr)
 	Reveal   []string // recursive spec functions whose definition the proof may unfold
 	Trusted  bool // external / assumed
@@ -233,6 +234,10 @@ func (S *Specs) LoadFile(path string, goFile bool) error {
 			for _, t := range strings.Fields(strings.ReplaceAll(rest, ",", " ")) {
 				cur.Props[t] = true
 			}
+		case "stable":
+			for _, t := range strings.Fields(strings.ReplaceAll(rest, ",", " ")) {
+				cur.Stable = append(cur.Stable, t)
+			}
 		case "recvinv":
 			r := regexp.MustCompile(`^(\w+)\((\w+)\)\s*:\s*(.*)$`).FindStringSubmatch(rest)
 			if r == nil {
@@ -296,7 +301,7 @@ func (S *Specs) LoadFile(path string, goFile bool) error {
 			r := regexp.MustCompile(`^call\s+(\S+)\s*:\s*assert\s+(.*)$`).FindStringSubmatch(rest)
 			if r == nil {
 				// at recv field#n: assert E   (blocking receive on the channel loaded from that struct field)
-				r = regexp.MustCompile(`^(recv\s+\S+)\s*:\s*assert\s+(.*)$`).FindStringSubmatch(rest)
+				r = regexp.MustCompile(`^((?:recv|send)\s+\S+)\s*:\s*assert\s+(.*)$`).FindStringSubmatch(rest)
 				if r != nil {
 					r[1] = strings.Join(strings.Fields(r[1]), " ")
 				}
